@@ -12,43 +12,7 @@ def run(ctx):
     write = mir.fn("TransformStream::write")
     end = mir.fn("TransformStream::end")
 
-    # ------------------------------------------------------------------ R11.1
-    r = ctx.rule("R11.1", "every Err exit of TransformStream::write/end passes should_bail_out_for; on its true edge run_bail_out_handlers precedes every flush_for_bail_out and a flush lies on every path to the return; on the false edge neither is called", "E-MIR", floor=4)
-    sites = []
-    for f in (write, end):
-        errs = f.err_return_blocks()
-        sb = [bi for bi, t in f.calls(r"TransformStream::should_bail_out_for$")]
-        r.count("err_exits", len(errs))
-        r.count("should_bail_out_for_calls", len(sb))
-        for e in errs:
-            key = f"{f.key}|err-exit#{errs.index(e)}"
-            r.inst(key, sample={"fn": f.key, "err_block": e})
-            # every path entry -> e passes one of sb
-            if f.can_reach_without(0, {e}, set(sb)):
-                r.violate(key, f"{f.key}: an Err(..) return is reachable without asking should_bail_out_for (no graceful bail-out on this exit)", f.loc())
-        for s in sb:
-            se = f.switch_edges(s)
-            key = f"{f.key}|bail-site#{sb.index(s)}"
-            r.inst(key)
-            if se is None:
-                r.violate(key, f"{f.key}: result of should_bail_out_for is not branched on directly", f.loc())
-                continue
-            false_s, true_s = se
-            errs_after = [e for e in errs if e in f.reachable_blocks(s)]
-            run_b = set(bi for bi, t in f.calls(r"Dispatcher::run_bail_out_handlers$") if bi in f.reachable_blocks(true_s, avoid=errs_after))
-            flush_b = set(bi for bi, t in f.calls(r"Dispatcher::flush_for_bail_out$") if bi in f.reachable_blocks(true_s, avoid=errs_after))
-            sites.append((f, s, sorted(flush_b)))
-            if not run_b or f.can_reach_without(true_s, set(errs_after), run_b):
-                r.violate(key + "|run", f"{f.key}: bail-out branch reaches the Err return without run_bail_out_handlers", f.loc())
-            if not flush_b or f.can_reach_without(true_s, set(errs_after), flush_b):
-                r.violate(key + "|flush", f"{f.key}: bail-out branch reaches the Err return without flush_for_bail_out (received bytes would be lost)", f.loc())
-            if flush_b and f.can_reach_without(true_s, flush_b, run_b) and true_s not in run_b:
-                r.violate(key + "|order", f"{f.key}: flush_for_bail_out can run before run_bail_out_handlers (handler output must precede the raw flush)", f.loc())
-            # false edge: nothing
-            fr = f.reachable_blocks(false_s, avoid=errs_after)
-            bad = [bi for bi, t in f.calls(r"Dispatcher::(run_bail_out_handlers|flush_for_bail_out)$") if bi in fr]
-            if bad:
-                r.violate(key + "|false-edge", f"{f.key}: bail-out handlers/flush reachable when should_bail_out_for is false", f.loc())
+    r, sites = rule_bail_out_sites(ctx, mir)
     # the documented exception: the error of finish() in end()
     r2 = ctx.rule("R11.1x", "the only Err exit without a bail-out site is the tail call of Dispatcher::finish in end(), and finish flushes all input before handle_end", "E-MIR", floor=2)
     fin_calls = list(end.calls(r"Dispatcher::finish$"))
@@ -188,3 +152,46 @@ def run(ctx):
     return ("CFG path rules (dominance / must-pass-through, exhaustive over all paths of the MIR control-flow graphs) on "
             "TransformStream::write/end, Dispatcher::{try_produce_token_from_lexeme,flush_for_bail_out,run_bail_out_handlers,finish}; "
             "decides the ordering and operand-identity conditions of graceful bail-out, not the byte equality at run time.")
+
+
+def rule_bail_out_sites(ctx, mir, rid="R11.1"):
+    write = mir.fn("TransformStream::write")
+    end = mir.fn("TransformStream::end")
+    # ------------------------------------------------------------------ R11.1
+    r = ctx.rule(rid, "every Err exit of TransformStream::write/end passes should_bail_out_for; on its true edge run_bail_out_handlers precedes every flush_for_bail_out and a flush lies on every path to the return; on the false edge neither is called", "E-MIR", floor=4)
+    sites = []
+    for f in (write, end):
+        errs = f.err_return_blocks()
+        sb = [bi for bi, t in f.calls(r"TransformStream::should_bail_out_for$")]
+        r.count("err_exits", len(errs))
+        r.count("should_bail_out_for_calls", len(sb))
+        for e in errs:
+            key = f"{f.key}|err-exit#{errs.index(e)}"
+            r.inst(key, sample={"fn": f.key, "err_block": e})
+            # every path entry -> e passes one of sb
+            if f.can_reach_without(0, {e}, set(sb)):
+                r.violate(key, f"{f.key}: an Err(..) return is reachable without asking should_bail_out_for (no graceful bail-out on this exit)", f.loc())
+        for s in sb:
+            se = f.switch_edges(s)
+            key = f"{f.key}|bail-site#{sb.index(s)}"
+            r.inst(key)
+            if se is None:
+                r.violate(key, f"{f.key}: result of should_bail_out_for is not branched on directly", f.loc())
+                continue
+            false_s, true_s = se
+            errs_after = [e for e in errs if e in f.reachable_blocks(s)]
+            run_b = set(bi for bi, t in f.calls(r"Dispatcher::run_bail_out_handlers$") if bi in f.reachable_blocks(true_s, avoid=errs_after))
+            flush_b = set(bi for bi, t in f.calls(r"Dispatcher::flush_for_bail_out$") if bi in f.reachable_blocks(true_s, avoid=errs_after))
+            sites.append((f, s, sorted(flush_b)))
+            if not run_b or f.can_reach_without(true_s, set(errs_after), run_b):
+                r.violate(key + "|run", f"{f.key}: bail-out branch reaches the Err return without run_bail_out_handlers", f.loc())
+            if not flush_b or f.can_reach_without(true_s, set(errs_after), flush_b):
+                r.violate(key + "|flush", f"{f.key}: bail-out branch reaches the Err return without flush_for_bail_out (received bytes would be lost)", f.loc())
+            if flush_b and f.can_reach_without(true_s, flush_b, run_b) and true_s not in run_b:
+                r.violate(key + "|order", f"{f.key}: flush_for_bail_out can run before run_bail_out_handlers (handler output must precede the raw flush)", f.loc())
+            # false edge: nothing
+            fr = f.reachable_blocks(false_s, avoid=errs_after)
+            bad = [bi for bi, t in f.calls(r"Dispatcher::(run_bail_out_handlers|flush_for_bail_out)$") if bi in fr]
+            if bad:
+                r.violate(key + "|false-edge", f"{f.key}: bail-out handlers/flush reachable when should_bail_out_for is false", f.loc())
+    return r, sites
